@@ -251,10 +251,10 @@ func memClass(m MemShape) string {
 		}
 	} else {
 		switch {
-		case m.Base >= 0 && m.Index >= 0 && m.Base == m.Index:
-			s = "same2"
 		case m.Base >= 0 && m.Index >= 0 && m.Base == 5:
 			s = "ebp+idx"
+		case m.Base >= 0 && m.Index >= 0 && m.Base == m.Index:
+			s = "same2"
 		case m.Base >= 0 && m.Index >= 0 && m.Base == 4:
 			s = "esp+idx"
 		case m.Base >= 0 && m.Index >= 0:
